@@ -102,7 +102,9 @@ def e24(rep, src):
         short = f.file.split("/")[-1][:-3]
         from .canon import canon_view
 
-        f = canon_view(f, src, helpers=False)  # `let left_columns = join.left()..map(..); left_columns.chain(right_columns)` is read through
+        from .canon import inline_local_closures
+
+        f = canon_view(inline_local_closures(f), src, helpers=False)  # a local closure `|side, column| self.expr(&Expr::qcol(side, column))` is a helper like any other; `let left_columns = join.left()..map(..); left_columns.chain(right_columns)` is read through
         # scopes that iterate over one input: closures of an iterator chain rooted at join.left() / join.right(), and `for x in join.left()..` loops
         scopes = []
         for m in find(f.body, "mcall"):
